@@ -41,7 +41,7 @@ type c16sub struct {
 func (o *c16obj) acked() int64 { return atomic.LoadInt64(&o.ackStamp) }
 
 func c16(c *wk.Ctx) {
-	c.Note("rule", "each plan hosts a fresh Probe service and runs a PRNG sequence, then 2-8 concurrent goroutines, of: Service.Add (new object), call work(token) through a proxy, SubscribeTick, Service.Remove, remote terminate() through the object's proxy, removal of an already removed id, remote terminate of a removed object, calls after removal. Oracle: ids returned by Add are unique among live objects; for every object whose removal was acknowledged (Remove returned nil / terminate replied): its OnTerminate hook ran exactly once at quiescence (0 for live objects), every call started after the acknowledgement returns an error and never reaches the object (per-token execution counter), its subscribers' channels get closed (quiescence detector); every object still live answers correctly at the end. Stream crowd: one object with 3-24 registrations spread over 1-5 raw connections x 3 signals/properties (+ the generated proxies of a session) is removed or terminates itself: every (connection, signal) with an acknowledged registration receives the termination error, every proxy channel closes, the hook ran once, the sibling answers. Distinct non-trivial = distinct plans with at least one acknowledged removal followed by a call to the removed object.")
+	c.Note("rule", "each plan hosts a fresh Probe service and runs a PRNG sequence, then 2-8 concurrent goroutines, of: Service.Add (new object), call work(token) through a proxy, SubscribeTick, Service.Remove, remote terminate() through the object's proxy, removal of an already removed id, remote terminate of a removed object, calls after removal. Oracle: ids returned by Add are unique among live objects; for every object whose removal was acknowledged (Remove returned nil / terminate replied): its OnTerminate hook ran exactly once at quiescence (0 for live objects), every call started after the acknowledgement returns an error and never reaches the object (per-token execution counter), its subscribers' channels get closed (quiescence detector); every object still live answers correctly at the end. Stream flood: an object whose method is parked is flooded with 8-40 calls from 3-6 connections (mailbox full, routing goroutines waiting) and is terminated remotely / removed locally in the middle, then released: every call and the termination return, no call runs twice, hook once, later calls fail, the sibling answers on every connection. Stream crowd: one object with 3-24 registrations spread over 1-5 raw connections x 3 signals/properties (+ the generated proxies of a session) is removed or terminates itself: every (connection, signal) with an acknowledged registration receives the termination error, every proxy channel closes, the hook ran once, the sibling answers. Distinct non-trivial = distinct plans with at least one acknowledged removal followed by a call to the removed object.")
 	var w *world
 	defer func() {
 		if w != nil {
@@ -70,6 +70,7 @@ func c16(c *wk.Ctx) {
 		n++
 		c16one(c, i, rng, w, sess, fmt.Sprintf("P%d", n))
 	})
+	c.Cases("flood", c.Pick(40, 1500), func(i int, rng *rand.Rand) { c16flood(c, i, rng) })
 	c.Cases("crowd", c.Pick(150, 6000), func(i int, rng *rand.Rand) {
 		if w == nil || n%60 == 0 {
 			if w != nil {
@@ -283,6 +284,194 @@ func c16crowd(c *wk.Ctx, i int, rng *rand.Rand, w *world, sess bus.Session, name
 	}
 	if c.WantSample() && i%10 == 0 {
 		c.Sample(map[string]interface{}{"stream": "crowd", "plan": i, "connections": nConn, "registrations": len(want), "proxy_subscriptions": nProxy, "removal": how})
+	}
+}
+
+// c16flood: an object whose method is slow is flooded from several connections (its 10-slot mailbox is
+// full, further messages wait in the per-connection routing goroutines) and is asked to terminate (or
+// is removed locally) in the middle of the flood; then the slow call is released. Everything returns,
+// the hook ran exactly once, the sibling object keeps answering, later calls to the object fail.
+func c16flood(c *wk.Ctx, i int, rng *rand.Rand) {
+	w, err := newWorld("unix", nil)
+	if err != nil {
+		c.Inconclusive("flood", i, "world: "+err.Error())
+		return
+	}
+	defer w.close()
+	gate := make(chan struct{})
+	var parked int32
+	ps, err := w.addProbe("F", 3, nil)
+	if err != nil {
+		c.Inconclusive("flood", i, "addProbe: "+err.Error())
+		return
+	}
+	victim, sibling := ps.objs[1], ps.objs[2]
+	victim.impl.Gate = func(token uint64) {
+		if token == 1 {
+			atomic.StoreInt32(&parked, 1)
+			<-gate
+		}
+	}
+	nSess := 3 + rng.Intn(4)
+	var progress int64
+	type res struct {
+		token uint64
+		err   error
+		out   string
+	}
+	var mu sync.Mutex
+	var results []res
+	var wg sync.WaitGroup
+	call := func(p probe.ProbeProxy, token uint64) {
+		defer wg.Done()
+		out, err := p.Work(token, "flood")
+		atomic.AddInt64(&progress, 1)
+		mu.Lock()
+		results = append(results, res{token, err, out})
+		mu.Unlock()
+	}
+	proxies := make([]probe.ProbeProxy, nSess)
+	sibs := make([]probe.ProbeProxy, nSess)
+	for k := range proxies {
+		sess, err := w.session()
+		if err != nil {
+			c.Inconclusive("flood", i, "session: "+err.Error())
+			return
+		}
+		defer sess.Terminate()
+		for try := 0; ; try++ {
+			proxies[k], err = proxyFor(sess, ps, victim)
+			if err == nil {
+				sibs[k], err = proxyFor(sess, ps, sibling)
+			}
+			if err == nil {
+				break
+			}
+			if try > 2000 {
+				c.Inconclusive("flood", i, "proxy: "+err.Error())
+				return
+			}
+			time.Sleep(time.Millisecond)
+		}
+	}
+	// the slow call, then wait until it is inside the method
+	wg.Add(1)
+	go call(proxies[0], 1)
+	for y := 0; y < 100000 && atomic.LoadInt32(&parked) == 0; y++ {
+		time.Sleep(20 * time.Microsecond)
+	}
+	if atomic.LoadInt32(&parked) == 0 {
+		close(gate)
+		c.Inconclusive("flood", i, "the slow call never reached the method")
+		return
+	}
+	before := rng.Intn(10)    // calls queued before the termination request
+	after := 8 + rng.Intn(20) // calls sent after it, from all connections
+	local := rng.Intn(3) == 0 // Service.Remove instead of the remote terminate()
+	pause := func() { time.Sleep(time.Duration(50+rng.Intn(300)) * time.Microsecond) }
+	token := uint64(10)
+	for k := 0; k < before; k++ {
+		wg.Add(1)
+		go call(proxies[k%nSess], token)
+		token++
+		pause()
+	}
+	var termErr error
+	termDone := make(chan struct{})
+	go func() {
+		defer close(termDone)
+		if local {
+			termErr = ps.service.Remove(victim.id)
+		} else {
+			termErr = proxies[nSess-1].Terminate(victim.id)
+		}
+		atomic.AddInt64(&progress, 1)
+	}()
+	pause()
+	for k := 0; k < after; k++ {
+		wg.Add(1)
+		go call(proxies[k%nSess], token)
+		token++
+		if k%4 == 3 {
+			pause()
+		}
+	}
+	pause()
+	close(gate)
+	done := make(chan struct{})
+	go func() { wg.Wait(); <-termDone; close(done) }()
+	detail := map[string]interface{}{"connections": nSess, "calls_before_termination": before, "calls_after": after, "removal": map[bool]string{true: "Service.Remove", false: "remote terminate"}[local]}
+	v, dump := stuck.Wait(done, &progress, 3*time.Minute)
+	if v == stuck.Stuck {
+		detail["dump"] = clipDump(dump)
+		c.Viol("flood", i, "operation=never-returned/"+wk.PanicSite(dump), "calls / the termination of a flooded object never returned", detail)
+		c.Abandon("server deadlocked, Terminate would block")
+		return
+	}
+	if v == stuck.Watchdog {
+		c.Inconclusive("flood", i, "watchdog")
+		return
+	}
+	okCalls := 0
+	for _, r := range results {
+		if r.err == nil {
+			okCalls++
+			if r.out != svc.F(r.token, "flood") {
+				c.Viol("flood", i, "call=wrong-result", fmt.Sprintf("call %d returned %q", r.token, r.out), detail)
+				return
+			}
+		}
+		if victim.impl.ExecCount(r.token) > 1 {
+			c.Viol("flood", i, "call=executed-twice", fmt.Sprintf("call %d ran %d times", r.token, victim.impl.ExecCount(r.token)), detail)
+			return
+		}
+	}
+	detail["calls_ok"], detail["termination_error"] = okCalls, fmt.Sprint(termErr)
+	if termErr == nil {
+		if n := victim.impl.Terminated(); n != 1 {
+			c.Viol("flood", i, fmt.Sprintf("removed=terminated-%d-times", n), fmt.Sprintf("the removal was acknowledged, the termination hook ran %d times", n), detail)
+			return
+		}
+		if out, err := proxies[0].Work(5, "late"); err == nil || victim.impl.ExecCount(5) != 0 {
+			c.Viol("flood", i, "removed=call-succeeded", fmt.Sprintf("a call after the acknowledged removal returned %q / reached the object", out), detail)
+			return
+		}
+	} else if local {
+		c.Viol("flood", i, "remove=error", "Service.Remove of a live object failed: "+termErr.Error(), detail)
+		return
+	}
+	// the sibling must be unaffected, from every connection
+	sibDone := make(chan struct{})
+	var sibErr error
+	go func() {
+		defer close(sibDone)
+		for k, p := range sibs {
+			out, err := p.Work(uint64(100+k), "sib")
+			atomic.AddInt64(&progress, 1)
+			if err != nil || out != svc.F(uint64(100+k), "sib") {
+				sibErr = fmt.Errorf("connection %d: %q %v", k, out, err)
+				return
+			}
+		}
+	}()
+	if v, dump := stuck.Wait(sibDone, &progress, 3*time.Minute); v == stuck.Stuck {
+		detail["dump"] = clipDump(dump)
+		c.Viol("flood", i, "sibling=never-answers", "the sibling of a flooded and removed object does not answer", detail)
+		c.Abandon("server deadlocked, Terminate would block")
+		return
+	} else if v == stuck.Watchdog {
+		c.Inconclusive("flood", i, "watchdog (sibling)")
+		return
+	}
+	if sibErr != nil {
+		c.Viol("flood", i, "live=unreachable", "the sibling of a flooded and removed object fails: "+sibErr.Error(), detail)
+		return
+	}
+	c.Count("flood_plans_termination_acknowledged", map[bool]int64{true: 1}[termErr == nil])
+	c.Count("flood_calls", int64(len(results)))
+	c.Nontrivial(wk.Hash64("C16flood", i))
+	if c.WantSample() && i%10 == 0 {
+		c.Sample(map[string]interface{}{"stream": "flood", "plan": i, "connections": nSess, "calls": len(results), "calls_ok": okCalls, "removal": detail["removal"], "termination_error": fmt.Sprint(termErr)})
 	}
 }
 
